@@ -104,8 +104,14 @@ func (p *SyncnetBits) Deserialize(dr *codec.DecodingReader) error {
 	if p == nil {
 		return errors.New("nil syncnet bits")
 	}
-	_, err := dr.Read(p[:])
-	return err
+	if _, err := dr.Read(p[:]); err != nil {
+		return err
+	}
+	// SSZ bitvector: the unused high bits of the last byte must be zero
+	if p[syncnetByteLen-1]>>(SYNC_COMMITTEE_SUBNET_COUNT%8) != 0 {
+		return fmt.Errorf("syncnet bits 0b%b have bits set beyond the %d used ones", p[syncnetByteLen-1], SYNC_COMMITTEE_SUBNET_COUNT)
+	}
+	return nil
 }
 
 func (p SyncnetBits) Serialize(w *codec.EncodingWriter) error {
